@@ -626,6 +626,23 @@ func (g *G) genC15(p *Plan) {
 			{K: "rmbucket", B: b, Status: "force"}, {K: "headbucket", B: b}}
 		c.CrashFrom = 2
 	}
+	if crash && c.IsFS() && g.chance(0.08) {
+		// an overwrite by a body of the same length, killed at every point,
+		// with the clock stepping (backwards as well) between the two uploads:
+		// what is served afterwards is described by its own ETag
+		b, k := bkt(), key()
+		sz := g.pick2(0, 1, 37, 163, 4096)
+		second := Op{K: "put", B: b, Key: k, Body: g.body(sz), Meta: g.meta()}
+		if g.chance(0.7) {
+			second.Faults = []Fault{{Kind: "clock", At: g.pick2(-7200, -60, -2, -1, 1, 60)}}
+		}
+		ops = []Op{{K: "put", B: b, Key: k, Body: g.body(sz), Meta: g.meta()}}
+		if g.chance(0.5) {
+			ops = append(ops, Op{K: g.pick("get", "head"), B: b, Key: k})
+		}
+		c.CrashFrom = len(ops)
+		ops = append(ops, second)
+	}
 	p.Clients = [][]Op{ops}
 	c.Policy = simrt.Policy{Kind: "seq"}
 }
